@@ -3,6 +3,73 @@
    alloy-rlp, fastrlp; B: SCALE, SSZ, borsh, DER; C: num-bigint, primitive-types, bytemuck,
    postgres, ark-ff).  Only pinned statements, `exact`, Print Assumptions. *)
 
+(* ======================= C16A.part ======================= *)
+(* Properties/C16.v — Every codec integration round-trips and emits its format's reference encoding.
+   TEMPORARY (part A only): the integrator merges the parts.  Only pinned statements, `exact`,
+   and Print Assumptions live here. *)
+From Coq Require Import ZArith List Bool.
+From RV.Model Require Import Base Word Bytes BaseConv CodecA.
+From RV.Spec Require Import FmtA.
+From RV.Run Require RunC16A.
+From RV.Proofs Require PfCodecA PfC16A.
+Import ListNotations.
+Local Open Scope Z_scope.
+
+(* Group A (serde_json, bincode, rlp, alloy-rlp, fastrlp 0.3/0.4; Uint and Bits): for every width
+   0 <= BITS < 2^64 and every canonical value the encoders emit Spec/FmtA's reference encoding of
+   the value, length() is the number of bytes produced, MaxEncodedLenAssoc::LEN bounds it, the
+   bytes equal the codec crate's own u64/u128 encoding when the value fits, and decoding the
+   encoding returns the value (consuming exactly the encoding). *)
+Theorem C16A_holds : forall c : RunC16A.call, RunC16A.wf c -> RunC16A.spec c (RunC16A.run c) = true.
+Proof. exact PfC16A.C16A_all. Qed.
+Check C16A_holds : forall c : RunC16A.call, RunC16A.wf c -> RunC16A.spec c (RunC16A.run c) = true.
+Print Assumptions C16A_holds.
+
+(* Prop-level: the RLP encoders of the glue = minimal big-endian RLP string of the value *)
+Theorem C16A_rlp_encode : forall bits a, 0 <= bits -> canon bits a ->
+  CodecA.rlp_encode bits a = Val (rlp_uint (eval a)).
+Proof. exact PfCodecA.rlp_encode_spec. Qed.
+Check C16A_rlp_encode : forall bits a, 0 <= bits -> canon bits a ->
+  CodecA.rlp_encode bits a = Val (rlp_uint (eval a)).
+Print Assumptions C16A_rlp_encode.
+
+Theorem C16A_arlp_encode : forall bits a, 0 <= bits -> canon bits a ->
+  CodecA.arlp_encode bits a = Val (rlp_uint (eval a)).
+Proof. exact PfCodecA.arlp_encode_spec. Qed.
+Check C16A_arlp_encode : forall bits a, 0 <= bits -> canon bits a ->
+  CodecA.arlp_encode bits a = Val (rlp_uint (eval a)).
+Print Assumptions C16A_arlp_encode.
+
+Theorem C16A_arlp_length : forall bits a, 0 <= bits -> canon bits a ->
+  CodecA.arlp_length bits a = Val (lenZ (rlp_uint (eval a))).
+Proof. exact PfCodecA.arlp_length_spec. Qed.
+Check C16A_arlp_length : forall bits a, 0 <= bits -> canon bits a ->
+  CodecA.arlp_length bits a = Val (lenZ (rlp_uint (eval a))).
+Print Assumptions C16A_arlp_length.
+
+Theorem C16A_serde_json_ser : forall bits a, 0 <= bits -> canon bits a ->
+  CodecA.serde_json_ser bits a = Val (json_quantity (eval a)).
+Proof. exact PfCodecA.serde_json_ser_spec. Qed.
+Check C16A_serde_json_ser : forall bits a, 0 <= bits -> canon bits a ->
+  CodecA.serde_json_ser bits a = Val (json_quantity (eval a)).
+Print Assumptions C16A_serde_json_ser.
+
+Theorem C16A_bincode_ser : forall bits a, 0 <= bits -> canon bits a ->
+  CodecA.bincode_ser bits a = bincode_uint bits (eval a).
+Proof. exact PfCodecA.bincode_ser_spec. Qed.
+Check C16A_bincode_ser : forall bits a, 0 <= bits -> canon bits a ->
+  CodecA.bincode_ser bits a = bincode_uint bits (eval a).
+Print Assumptions C16A_bincode_ser.
+
+(* non-vacuity: a 56-byte payload in U512 takes the long form, 0xb8 0x38 ... *)
+Example C16A_nonvacuous :
+  RunC16A.run (RunC16A.alloy_rlp_length 512 [0; 0; 0; 0; 0; 0; 72057594037927936; 0])
+  = Val [TZ 58; TZ 66]
+  /\ RunC16A.run (RunC16A.serde_json_ser 64 [1024]) = Val [TY [34; 48; 120; 52; 48; 48; 34]]
+  /\ RunC16A.run (RunC16A.rlp_encode 256 [1024; 0; 0; 0])
+     = Val [TY [130; 4; 0]; TY [130; 4; 0]; TY [130; 4; 0]].
+Proof. vm_compute. repeat split. Qed.
+
 (* ======================= C16B.part ======================= *)
 (* Properties/C16.v — Every codec integration round-trips and emits its format's reference
    encoding.  TEMPORARY umbrella holding only group B (SCALE plain + compact, SSZ, borsh, DER);
